@@ -26,7 +26,7 @@ func (c17) Rule() string {
 func (c17) Exhaustive(string) string { return "" }
 func (c17) Runs(tier string) int64 {
 	if tier == "thorough" {
-		return 3000000
+		return 12000000
 	}
 	return 60000
 }
